@@ -28,9 +28,32 @@ def load_findings():
     return json.load(open(FINDINGS))['findings']
 
 
+class HardTimeout(BaseException):
+    pass
+
+
+def _alarm(signum, frame):
+    raise HardTimeout()
+
+
 def _worker(job):
-    """runs in a pool process: one obligation"""
+    """runs in a pool process: one obligation (hard wall-clock limit = 2 x budget + 120 s -> inconclusive)"""
+    import signal
     t0 = time.time()
+    signal.signal(signal.SIGALRM, _alarm)
+    # repeating timer: a single alarm can be swallowed when it fires inside a __del__ or a bare except
+    signal.setitimer(signal.ITIMER_REAL, int(job.get('budget_s', 300) * 2 + 120), 3)
+    try:
+        return _worker_inner(job, t0)
+    except HardTimeout:
+        return dict(job=job, status='inconclusive', detail='hard wall-clock limit reached (%.0fs)' % (time.time() - t0), wall=time.time() - t0,
+                    stats={}, flags={}, nontrivial=0, cex=None, replay=None)
+    finally:
+        signal.setitimer(signal.ITIMER_REAL, 0)
+        signal.signal(signal.SIGALRM, signal.SIG_IGN)
+
+
+def _worker_inner(job, t0):
     try:
         from symdc import loader
         kind = job['engine']
@@ -59,6 +82,12 @@ def _worker(job):
                 rt = harness.run(twin, L, budget_s=min(60, job['budget_s']), page=P.get('page', 1), batch=P.get('batch', 1), replay=False)
                 out['twin'] = rt.status
             return dict(job=job, **out)
+        elif kind == 'VAL':
+            from symdc import validate
+            v = validate.run(_get_L(), seed=job.get('seed', 0), n=job.get('n', 40))
+            st = 'holds' if not v['disagreements'] else 'error'
+            return dict(job=job, status=st, detail='' if st == 'holds' else 'the SQL/FS model disagrees with sqlite3/real files on %d cases, e.g. %s' % (len(v['disagreements']), str(v['disagreements'][0])[:600]),
+                        stats={'paths': v['api_calls_compared']}, flags={}, nontrivial=0, cex=None, replay=None, validation=v, wall=time.time() - t0)
         elif kind == 'E2':
             from symdc import ch_driver
             mod.EXCLUDE = list(job.get('exclude', []))
@@ -70,6 +99,8 @@ def _worker(job):
             out = fn(job)
             out.setdefault('wall', time.time() - t0)
             return dict(job=job, **out)
+    except HardTimeout:
+        raise
     except BaseException as e:
         return dict(job=job, status='error', detail='%s: %s' % (type(e).__name__, e), traceback=traceback.format_exc(), wall=time.time() - t0,
                     stats={}, flags={}, nontrivial=0, cex=None, replay=None)
@@ -158,6 +189,10 @@ def main(argv):
         j['exclude'] = [f['id'] for f in known if re.search(f['obligations'], j['id'])]
     # pre-flight (guards): loader cuts present, SQL statements parse, model validation
     pre = registry.preflight(prop, tier)
+    # differential model validation runs as one more job of the pool (own hard time limit)
+    if any(j.get('engine') == 'E1' for j in jobs):
+        jobs.append(dict(id='model-validation', engine='VAL', module='symdc.validate', func='run', params={}, seed=seed, n=40 if tier == 'quick' else 200,
+                         budget_s=60, weight=10 ** 6, prop=prop, tags=[prop], functions=[]))
     results = []
     ctx = mp.get_context('fork')
     if jobs:
@@ -179,6 +214,9 @@ def main(argv):
             known_lines.append('KNOWN-FINDING: property=%s %s [%s]' % (prop, f['what'], f['id']))
         elif r.get('error'):
             pre['errors'].append('witness of known finding %s could not be replayed: %s' % (f['id'], r['error']))
+    for r in results:
+        if r['job'].get('engine') == 'VAL':
+            pre['info']['model_validation'] = r.get('validation') or r.get('detail')
     # aggregate
     violations, inconclusive, errors = [], [], list(pre['errors'])
     inconclusive.extend(pre['inconclusive'])
